@@ -62,7 +62,7 @@ def gen_buf_history(rng, ty, L, pool=4, nops=10):
             if live:
                 choices += ['copy'] * 2 + ['move'] * 3
         if live:
-            choices += ['asg'] * 3 + ['masg'] * 4 + ['alloc'] * 2 + ['allocfill', 'write', 'clear', 'del', 'del']
+            choices += ['asg'] * 3 + ['masg'] * 4 + ['alloc'] * 2 + ['allocfill', 'write', 'clear', 'del', 'del'] + ['swap'] * 2
         op = rng.choice(choices)
         if op in ('new', 'fill', 'def', 'copy', 'move'):
             o = rng.choice(dead)
@@ -92,6 +92,11 @@ def gen_buf_history(rng, ty, L, pool=4, nops=10):
                 sizes[o] = sizes[s]
             elif o != s:
                 sizes[o], sizes[s] = sizes[s], sizes[o]
+        elif op == 'swap':
+            o = rng.choice(sorted(live))
+            s = rng.choice(sorted(live))
+            ops.append('swap,%d,%d' % (o, s))
+            sizes[o], sizes[s] = sizes[s], sizes[o]
         elif op in ('alloc', 'allocfill'):
             o = rng.choice(sorted(live))
             n = pick_size()
